@@ -15,7 +15,7 @@ PROPS["C18"] = {
          "bounds": {"len": "[0,1100] symbolic", "offset": "full int64", "limit": "full int64"}},
         {"pkg": "pclog", "name": "VerifC18_Write", "quick": {}, "thorough": {},
          "bounds": {"size": "[0,3] symbolic", "pre-state": "0, 1, size, size+slack-1, size+slack lines held", "step": "one Write"}},
-        {"pkg": "pclog", "name": "VerifC18_Follow", "quick": {"d": 3}, "thorough": {"d": 4},
+        {"pkg": "pclog", "name": "VerifC18_Follow", "quick": {"d": 3}, "thorough": {"d": 4}, "replay_repeat": 16,
          "bounds": {"writes": 4, "subscribe": "after any number of them", "tail": "full int64", "unsubscribe": "after any number of writes or never", "concurrent writer": "yes (delay bound d)"}},
     ],
     "stubs": [],
@@ -121,7 +121,7 @@ PROPS["C15"] = {
         {"pkg": "loader", "name": "VerifC15_Env", "quick": {},
          "bounds": {"base entries": "<=2", "override entries": "<=1", "keys": "{A,B}", "values": "every byte string over {'=','x'} of length <=2"}},
         {"pkg": "loader", "name": "VerifC15_Fold", "quick": {}, "thorough": {},
-         "bounds": {"extends chain": "child / child->parent / child->parent->grandparent", "per file": "sets log_level or not, defines process svc or not"}},
+         "bounds": {"extends chain": "child / child->parent / child->parent->grandparent", "per file": "sets log_level or not, defines process svc or not, has a project-level shell section or not"}},
         {"pkg": "loader", "name": "VerifC15_EnvDeep", "thorough": {},
          "bounds": {"base entries": "<=2", "override entries": "<=1", "keys": "{A,B}", "values": "every byte string over {'=','x'} of length <=3"}},
     ],
@@ -134,8 +134,8 @@ PROPS["C17"] = {
         {"pkg": "app", "name": "VerifC17_Launch", "quick": {}, "thorough": {},
          "bounds": {"layers": "inherited/global/per-process, <=1 entry each", "keys": "A (all layers), PC_PROC_NAME/PC_REPLICA_NUM (inherited)",
                     "values": "byte strings over {x,y} len<=1", "replica_num": "[0,99]"}},
-        {"pkg": "app", "name": "VerifC17_Project", "quick": {"d": 0}, "thorough": {"d": 1}, "replay_repeat": 4,
-         "bounds": {"processes": "alpha (2 own variables, restarted once) and beta (1 own variable)", "global variables": "1..4 plus one from env_cmds"}},
+        {"pkg": "app", "name": "VerifC17_Project", "quick": {"d": 0}, "thorough": {"d": 1}, "replay_repeat": 12,
+         "bounds": {"processes": "alpha (2 own variables, restarted once) and beta (1 own variable)", "global variables": "1..4 plus two from env_cmds next to a failing env command, every order of the env_cmds map"}},
         {"pkg": "loader", "name": "VerifC17_Expand", "quick": {}, "thorough": {},
          "bounds": {"text": "1..3 tokens from {literal over {a,-,space} len<=2, $$, $VX, ${VX}, ${VY}}", "expansion": "enabled/disabled", "values": "VX=val, VY=p$q"}},
     ],
@@ -216,7 +216,7 @@ PROPS["C01"] = {
         {"pkg": "app", "name": "VerifC01_Api", "quick": {"d": 1}, "thorough": {"d": 2}, "native": False, "reach": ["end", "launched.after.ready"],
          "bounds": {"operation": "RestartProcess / StopProcess+StartProcess / ScaleProcess to 2 / UpdateProject adding a dependent", "dependency": "process_healthy that becomes ready later, or process_completed_successfully that failed"}},
         {"pkg": "app", "name": "VerifC01_Api2", "quick": {"d": 1}, "thorough": {"d": 2}, "native": False, "reach": ["end", "launched.after.ready"],
-         "bounds": {"scenario": "dependent with a never-scheduled (disabled) sibling dependency, both depends_on orders / dependency restarted through the API before the dependent is started / UpdateProject adding a dependency and its dependent at once, every map order / a process_log_ready dependency stopped or restarted through the API before its ready line / a process_started dependency stopped (API or project shutdown) while it was still waiting for its own dependencies",
+         "bounds": {"scenario": "dependent with a never-scheduled (disabled) sibling dependency, both depends_on orders / dependency restarted through the API before the dependent is started / UpdateProject adding a dependency and its dependent at once, every map order / a process_log_ready dependency stopped or restarted through the API before its ready line / a process_started dependency stopped (API or project shutdown) while it was still waiting for its own dependencies / a process_healthy dependent started while its dependency, ready before, is down in its restart back-off",
                     "schedules": "one preemption (two thorough)"}},
         {"pkg": "app", "name": "VerifC01_Gating", "quick": {"d": 0}, "thorough": {"d": 1}, "replay_repeat": 8,
          "bounds": {"N": 3, "edges": "every subset of {p1->p0,p2->p0,p2->p1} x {completed, completed_successfully, log_ready, started}", "dependency behaviour": "exit 0 / exit 3 / killed by a signal (-1) / runs until stopped",
@@ -265,6 +265,8 @@ PROPS["C09"] = {
     "harnesses": [
         {"pkg": "app", "name": "VerifC09_State", "quick": {}, "thorough": {},
          "bounds": {"status": "arbitrary string len<=12", "exit code": "[0,255]"}},
+        {"pkg": "app", "name": "VerifC09_ProbeRestart", "quick": {"d": 1}, "thorough": {"d": 2}, "native": False, "reach": ["end", "in.back-off"],
+         "bounds": {"process": "readiness probe with failure_threshold 2, restart on_failure/always, back-off 5 s", "history": "two failed checks, internal stop, back-off, relaunch, stop"}},
         {"pkg": "app", "name": "VerifC09_Project", "quick": {"d": 1}, "thorough": {"d": 2}, "replay_repeat": 6,
          "bounds": {"N": 2, "p0": "exit 0 / exit 3 / runs until stopped / start error; policy no or always(max 1)", "p1": "optional completed_successfully edge on p0",
                     "stop of p0": "none or at any labelled life-cycle point", "observer": "3 reads of the public state at arbitrary scheduling points"}},
@@ -281,6 +283,8 @@ PROPS["C11"] = {
          "bounds": {"stream": "<=3 complete lines + final fragment, each every byte string over {a,b,space} of length <=2 (empty lines, missing final newline included)"}},
         {"pkg": "app", "name": "VerifC11_Window", "quick": {}, "thorough": {},
          "bounds": {"log_length": "{0,1,3}", "lines written": "log_length + {99,100,101,102,200,201,202} (both sides of the first two trimming points)"}},
+        {"pkg": "app", "name": "VerifC11_Streams", "quick": {"d": 2}, "thorough": {"d": 3}, "replay_repeat": 6,
+         "bounds": {"output": "two stdout lines and two stderr lines, then exit 0", "readers": "the stderr reader may be delayed at every read (delay bound d)"}},
         {"pkg": "pclog", "name": "VerifC11_LoggerDrain", "quick": {"d": 1}, "thorough": {"d": 3}, "replay_repeat": 6,
          "bounds": {"lines": "1..3 handed to the file logger (Info/Error alternating), then Close", "logger config": "default / flush_each_line / no_metadata / add_timestamp",
                     "collector progress": "every interleaving of the collector with the producer at the per-line scheduling points within the delay bound"}},
@@ -289,7 +293,7 @@ PROPS["C11"] = {
               "zerolog: one Write of message+newline per Msg to the writer given to zerolog.New (natively the real zerolog)", "PCLog.getWriter: an in-memory sink (natively a real file)"],
     "assumptions": ["real pipes, kernel buffering, zerolog formatting and rotation are outside the claim (reduced scope)"],
 }
-_lv("C11", "handleOutput/handleInfo/ProcessLogBuffer.Write over a scripted stream of <=3 complete lines plus a final fragment with symbolic contents: the in-memory log holds exactly the delivered lines, once, in order, newline stripped, an unterminated last line included; end of stream signalled once. Window: log_length+{99..102,200..202} lines through the real handleOutput: the most recent log_length lines are in the log in order, the last line written is the newest entry. Log file: real PCLog Open/Info/Error/Close/runCollector + the standard library's bufio.Writer, 1-3 lines, four logger configurations, every collector interleaving within the delay bound: every line handed over before Close is in the file exactly once and in order after Close, and nothing is written after the file was closed.",
+_lv("C11", "handleOutput/handleInfo/ProcessLogBuffer.Write over a scripted stream of <=3 complete lines plus a final fragment with symbolic contents: the in-memory log holds exactly the delivered lines, once, in order, newline stripped, an unterminated last line included; end of stream signalled once. Window: log_length+{99..102,200..202} lines through the real handleOutput: the most recent log_length lines are in the log in order, the last line written is the newest entry. Streams: real Run() on a command that writes to stdout and stderr and exits, the stderr reader delayed at will: when Run() returns every line of both streams is in the log, once, in stream order. Log file: real PCLog Open/Info/Error/Close/runCollector + the standard library's bufio.Writer, 1-3 lines, four logger configurations, every collector interleaving within the delay bound: every line handed over before Close is in the file exactly once and in order after Close, and nothing is written after the file was closed.",
     "bufio.ReadString and zerolog modelled by their contracts under symgo (real ones natively); file opening replaced by a sink under symgo; very long lines and rotation are outside - reduced scope.")
 
 PROPS["C16"] = {
